@@ -494,7 +494,8 @@ def check_signature_fn(ck, fi):
         core = _strip_wrappers(e)
         secret_subs = [s for s in ast.walk(core) if isinstance(s, ast.Subscript) and q.dotted(s.value) == owner and q.is_const(s.slice, "secret")]
         ck.ob("C48.key", fi, e, len(secret_subs) >= 1, "%s part of the key is the %s secret" % ("first" if label == "consumer" else "second", label), construct="%s-secret-position %s" % (label, q.unparse(e)))
-        ck.ob("C48.key-parts-encoded", fi, e, escaped(e, set()), "the %s secret is percent-encoded before it enters the key (RFC 5849 §3.4.2)" % label)
+        ck.ob("C48.key-parts-encoded", fi, e, escaped(e, set()), "the %s secret is percent-encoded before it enters the key (RFC 5849 §3.4.2)" % label,
+              construct="%s secret enters the key unencoded" % label)
     # absent token -> empty second part
     core = _strip_wrappers(kel[1])
     if isinstance(core, ast.IfExp):
@@ -607,7 +608,8 @@ def rule_call_sites(ck):
                 ck.ob("C48.call-sites", fi, c, t is not None and q.dotted(t) == tok_params[0], "the token whose secret keys the signature is passed on")
         # signed dict: nothing but the signature is added after signing
         for node, c in (sites[SIGS[0]][0], sites[SIGS[1]][0]):
-            d = q.dotted(c.args[3]) if len(c.args) > 3 else None
+            pa_ = q.arg(c, 3, "parameters")
+            d = q.dotted(pa_) if pa_ is not None else None
             if d is None:
                 raise AnalysisError("%s: parameters argument is not a local name" % qn)
             later = []
@@ -638,7 +640,8 @@ def rule_call_sites(ck):
             if "url" in fparams:
                 ck.ob("C48.call-sites", fi, c, q.dotted(q.arg(c, 2, "url")) == "url", "the request's own URL is signed", construct="url-passed " + q.unparse(c.func))
         if "parameters" in fparams:
-            d = q.dotted(ca.args[3]) if len(ca.args) > 3 else None
+            pa_ = q.arg(ca, 3, "parameters")
+            d = q.dotted(pa_) if pa_ is not None else None
             is_merge = lambda n: n.kind == "stmt" and any(isinstance(x, ast.Call) and isinstance(x.func, ast.Attribute) and x.func.attr == "update" and q.dotted(x.func.value) == d
                                                           and x.args and q.dotted(x.args[0]) == "parameters" for x in q.walk_local(n.ast))
             ef = event_facts(fi, {"merged": is_merge}, cond_facts=False)
